@@ -133,6 +133,7 @@ type VC struct {
 	obAsserts  map[int]bool // assertions that restate an earlier obligation
 	seenRef    map[string]bool
 	seenRefs   []string
+	immRefs    map[int][]string // per object type: references an immutable field has been read through
 	seenRefTid map[string]int // static struct type id of references to whole-object structs
 	pure       int // >0 while evaluating a quantifier body
 	rangeIDs   map[*ssa.Range]string
@@ -541,6 +542,34 @@ func (vc *VC) noteRef(r string) {
 	vc.seenRefs = append(vc.seenRefs, r)
 }
 
+// noteImmRef records that a field of an object of struct type t was addressed through ref; when the
+// field is immutable (K3) the reference gets a ground instance of the preservation axiom at every havoc.
+func (vc *VC) noteImmRef(t types.Type, off int, ref string) {
+	if len(vc.eng.immutableLeaves) == 0 || !isAtom(ref) {
+		return
+	}
+	tid := -1
+	for _, im := range vc.eng.immutableLeaves {
+		if im.leaf == off || (im.leaf > off && im.leaf < off+4) {
+			if tid < 0 {
+				tid = vc.tid(t)
+			}
+			if im.tid == tid {
+				if vc.immRefs == nil {
+					vc.immRefs = map[int][]string{}
+				}
+				for _, r := range vc.immRefs[tid] {
+					if r == ref {
+						return
+					}
+				}
+				vc.immRefs[tid] = append(vc.immRefs[tid], ref)
+				return
+			}
+		}
+	}
+}
+
 func (vc *VC) allocObj(st *State, t types.Type, zero bool) PtrV {
 	ref := vc.def("obj", "Int", st.top)
 	st.top = vc.def("top", "Int", fmt.Sprintf("(+ %s 1)", ref))
@@ -704,9 +733,16 @@ func (vc *VC) havocAll(st *State, why string) {
 		// parameters and call results first (they name the handles contracts talk about), then the most recent loads
 		var refs []string
 		other := 0
+		direct := map[string]bool{}
+		if ir := vc.immRefs[im.tid]; len(ir) > 0 {
+			for k := len(ir) - 1; k >= 0 && len(refs) < 24; k-- {
+				refs = append(refs, ir[k])
+				direct[ir[k]] = true
+			}
+		}
 		for k := len(vc.seenRefs) - 1; k >= 0; k-- {
 			r := vc.seenRefs[k]
-			if vc.seenRefTid[r] != im.tid {
+			if vc.seenRefTid[r] != im.tid || direct[r] {
 				continue
 			}
 			if strings.HasPrefix(r, "arg_") || strings.HasPrefix(r, "ret_") || strings.HasPrefix(r, "fv_") {
